@@ -19,6 +19,7 @@ import (
 
 	"verif/harness"
 	"verif/simrt"
+	"verif/synyield"
 )
 
 // C16 — WaitTimeout returns with the caller's lock held, no later than a
@@ -39,9 +40,15 @@ type Call struct {
 }
 
 type WTPlan struct {
-	Batch  string  `json:"batch"` // wt | aux
+	Batch  string  `json:"batch"` // wt | aux | perturb
 	Calls  []Call  `json:"calls"`
 	Events []Event `json:"events"`
+	// perturb batch: events may tie with call starts / expiries, the Go
+	// runtime's goroutine choice is nudged at the yield points spliced into
+	// machine/prims.go, and the plan is repeated Reps times with scripts
+	// derived from ScriptSeed.
+	ScriptSeed uint64 `json:"script_seed,omitempty"`
+	Reps       int    `json:"reps,omitempty"`
 }
 
 type c16 struct{}
@@ -57,6 +64,9 @@ var timeouts = []uint64{0, 1, 2, 10, 100, 10000, 1 << 32}
 func (c16) Gen(rng *simrt.Rand, tier string, run int) interface{} {
 	if run%64 == 63 {
 		return WTPlan{Batch: "aux"}
+	}
+	if run%4 == 2 {
+		return genPerturb(rng)
 	}
 	p := WTPlan{Batch: "wt"}
 	n := 1
@@ -181,6 +191,9 @@ func (c16) Exec(pj json.RawMessage, tape *simrt.Tape, keepLog bool) harness.RunO
 		out.Probes["aux_assertions"]++
 		out.Violation = auxAssertions()
 		return out
+	}
+	if p.Batch == "perturb" {
+		return execPerturb(&p, pj, keepLog)
 	}
 	obs := make([]callObs, len(p.Calls))
 	type evObs struct {
@@ -475,4 +488,269 @@ func TestDriver(t *testing.T) {
 	}
 	theT = t
 	harness.MainArgs(strings.Split(args, "\x1f"), map[string]harness.Check{"C16": c16{}})
+}
+
+// ---- perturb batch --------------------------------------------------------------------
+//
+// The deterministic batch keeps every event at its own simulated instant, so it
+// cannot reach interleavings *inside* one instant: a signaller that is already
+// queued on the mutex when WaitTimeout is entered, a Broadcast at the very
+// instant the timer fires, a zero timeout racing the start of a helper
+// goroutine. Here events deliberately tie with call starts and expiries, and
+// the runtime's goroutine choice is nudged by runtime.Gosched at the yield
+// points the rewriter spliced into machine/prims.go. Order is recovered from
+// stamps taken while holding the mutex, so every outcome is judged soundly;
+// but which outcome occurs is the Go runtime's choice (goroutine wake-up order,
+// select among ready cases), so a replay re-runs the plan's repetitions and
+// reproduces with high probability, not with certainty.
+
+func genPerturb(rng *simrt.Rand) WTPlan {
+	p := WTPlan{Batch: "perturb", ScriptSeed: rng.Uint64(), Reps: 12}
+	n := 1 + rng.Intn(2)
+	at := int64(0)
+	var starts, expiries []int64
+	for i := 0; i < n; i++ {
+		c := Call{TimeoutMs: []uint64{0, 0, 1, 2, 10}[rng.Intn(5)], GapUs: int64(rng.Pick(0, 16, 8000))}
+		if i == 0 {
+			c.GapUs = int64(rng.Pick(0, 0, 16))
+		}
+		at += c.GapUs
+		starts = append(starts, at)
+		at += int64(c.TimeoutMs) * 16000
+		expiries = append(expiries, at)
+		p.Calls = append(p.Calls, c)
+	}
+	ne := 1 + rng.Intn(3)
+	for j := 0; j < ne; j++ {
+		ci := rng.Intn(n)
+		var t int64
+		switch rng.Intn(5) {
+		case 0, 1:
+			t = starts[ci] // exactly when the call is entered (after its gap)
+		case 2, 3:
+			t = expiries[ci] // exactly when the timer fires
+		default:
+			t = (starts[ci] + expiries[ci]) / 2
+		}
+		p.Events = append(p.Events, Event{AtUs: t, Kind: []string{"signal", "broadcast", "broadcast", "waiter"}[rng.Intn(4)]})
+	}
+	sort.Slice(p.Events, func(i, j int) bool { return p.Events[i].AtUs < p.Events[j].AtUs })
+	return p
+}
+
+type stampedEv struct {
+	kind  string // entry, exit, signal, broadcast, waiter
+	call  int
+	stamp int64
+	at    time.Duration
+}
+
+func execPerturb(p *WTPlan, pj []byte, keepLog bool) harness.RunOut {
+	out := harness.RunOut{Probes: map[string]int{"batch_perturb": 1}, Faults: map[string]int{}, Fingerprint: simrt.HashString(string(pj))}
+	out.NonTrivial = true
+	out.Sample = map[string]interface{}{"plan": p}
+	reps := p.Reps
+	if reps <= 0 {
+		reps = 1
+	}
+	for rep := 0; rep < reps; rep++ {
+		rng := simrt.NewRand(simrt.Mix(p.ScriptSeed, uint64(rep)))
+		script := make([]uint8, 48)
+		if rep > 0 {
+			for i := range script {
+				if rng.Chance(1, 3) {
+					script[i] = uint8(1 + rng.Intn(3))
+				}
+			}
+		}
+		v, log := perturbOnce(p, script)
+		out.Probes["perturb_bubbles"]++
+		if keepLog {
+			out.Log = append(out.Log, fmt.Sprintf("-- repetition %d", rep))
+			out.Log = append(out.Log, log...)
+		}
+		if v != nil {
+			v.Msg = fmt.Sprintf("(repetition %d of %d; the Go runtime chooses among goroutines that are runnable at the same instant, so this plan reproduces with high probability, not certainty) %s", rep, reps, v.Msg)
+			out.Violation = v
+			return out
+		}
+	}
+	return out
+}
+
+func perturbOnce(p *WTPlan, script []uint8) (*harness.Violation, []string) {
+	var log []string
+	var mu sync.Mutex
+	var evMu sync.Mutex // protects evs (never held while blocking)
+	var evs []stampedEv
+	stamp := int64(0)
+	add := func(kind string, call int, at time.Duration) {
+		evMu.Lock()
+		stamp++
+		evs = append(evs, stampedEv{kind, call, stamp, at})
+		evMu.Unlock()
+	}
+	type res struct {
+		stuck string
+	}
+	done := make(chan res, 1)
+	lockHeld := make([]bool, len(p.Calls))
+	panics := make([]string, len(p.Calls))
+	go func() {
+		var r res
+		defer func() {
+			if x := recover(); x != nil {
+				r.stuck = fmt.Sprint(x)
+			}
+			done <- r
+		}()
+		synctest.Test(theT, func(t *testing.T) {
+			cond := sync.NewCond(&mu)
+			t0 := time.Now()
+			var wg sync.WaitGroup
+			finished := false
+			for _, e := range p.Events {
+				e := e
+				wg.Add(1)
+				go func() {
+					defer wg.Done()
+					time.Sleep(time.Duration(e.AtUs) * unit)
+					mu.Lock()
+					if finished {
+						mu.Unlock()
+						return
+					}
+					add(e.Kind, -1, time.Since(t0)) // stamped while holding mu
+					switch e.Kind {
+					case "signal":
+						cond.Signal()
+					case "broadcast":
+						cond.Broadcast()
+					case "waiter":
+						cond.Wait()
+					}
+					mu.Unlock()
+				}()
+			}
+			mu.Lock()
+			for i, c := range p.Calls {
+				if c.GapUs > 0 {
+					mu.Unlock()
+					time.Sleep(time.Duration(c.GapUs) * unit)
+					mu.Lock()
+				}
+				add("entry", i, time.Since(t0))
+				synyield.Install(script)
+				func() {
+					defer func() {
+						if r := recover(); r != nil {
+							panics[i] = fmt.Sprint(r)
+						}
+					}()
+					machine.WaitTimeout(cond, c.TimeoutMs)
+				}()
+				synyield.Install(nil)
+				if mu.TryLock() {
+					lockHeld[i] = false
+				} else {
+					lockHeld[i] = true
+				}
+				add("exit", i, time.Since(t0))
+				if panics[i] != "" {
+					break
+				}
+			}
+			finished = true
+			mu.Unlock()
+			for k := 0; k < 8; k++ {
+				mu.Lock()
+				cond.Broadcast()
+				mu.Unlock()
+				synctest.Wait()
+			}
+			wg.Wait()
+		})
+	}()
+	var r res
+	select {
+	case r = <-done:
+	case <-time.After(5 * time.Second):
+		synyield.Install(nil)
+		return &harness.Violation{Oracle: "wt.stuck", Key: "wt.stuck/perturb", Msg: fmt.Sprintf("WaitTimeout did not return: the bubble made no progress for 5 s of real time (a goroutine is blocked on the mutex for ever); plan %+v", *p)}, log
+	}
+	evMu.Lock()
+	defer evMu.Unlock()
+	for _, e := range evs {
+		log = append(log, fmt.Sprintf("stamp %d: %s call=%d at %v", e.stamp, e.kind, e.call, e.at))
+	}
+	fail := func(oracle, msg string) *harness.Violation {
+		return &harness.Violation{Oracle: oracle, Key: oracle + "/perturb", Msg: msg}
+	}
+	if r.stuck != "" {
+		return fail("wt.stuck", "the bubble did not drain: "+r.stuck), log
+	}
+	for i := range p.Calls {
+		if panics[i] != "" {
+			return fail("wt.panic", fmt.Sprintf("call %d WaitTimeout(%d ms) panicked: %s", i, p.Calls[i].TimeoutMs, panics[i])), log
+		}
+	}
+	// reference: ideal timed wait on a FIFO condition variable, events ordered
+	// by their stamps (all taken while holding the mutex)
+	type qent struct{ call int }
+	var queue []qent
+	cur := -1
+	var entryAt, wakeAt time.Duration
+	woken := ""
+	earlierTimeout := false
+	for _, e := range evs {
+		switch e.kind {
+		case "entry":
+			cur, entryAt, woken = e.call, e.at, ""
+			queue = append(queue, qent{e.call})
+		case "signal":
+			if len(queue) > 0 {
+				if queue[0].call == cur && cur >= 0 && woken == "" {
+					woken, wakeAt = "signal", e.at
+				}
+				queue = queue[1:]
+			}
+		case "broadcast":
+			for _, q := range queue {
+				if q.call == cur && cur >= 0 && woken == "" {
+					woken, wakeAt = "broadcast", e.at
+				}
+			}
+			queue = nil
+		case "waiter":
+			queue = append(queue, qent{-1})
+		case "exit":
+			i := e.call
+			if !lockHeld[i] {
+				return fail("wt.lock-not-held", fmt.Sprintf("call %d WaitTimeout(%d ms) returned without holding the caller's lock (TryLock succeeded)", i, p.Calls[i].TimeoutMs)), log
+			}
+			T := time.Duration(p.Calls[i].TimeoutMs) * time.Millisecond
+			switch {
+			case woken != "" && e.at > wakeAt+eps:
+				if earlierTimeout && woken == "signal" {
+					v := fail("wt.late-signal", fmt.Sprintf("call %d WaitTimeout(%d ms) entered at %v; a signal reached it at %v, yet it returned at %v; an earlier call on this cond had timed out", i, p.Calls[i].TimeoutMs, entryAt, wakeAt, e.at))
+					v.Key = "wt.late-signal/after-earlier-timeout"
+					return v, log
+				}
+				return fail("wt.late-"+woken, fmt.Sprintf("call %d WaitTimeout(%d ms) entered at %v; a %s took the lock after the call was entered (stamp order) at %v, yet the call returned at %v", i, p.Calls[i].TimeoutMs, entryAt, woken, wakeAt, e.at)), log
+			case woken == "" && e.at > entryAt+T+eps:
+				return fail("wt.late-timeout", fmt.Sprintf("call %d WaitTimeout(%d ms) entered at %v returned at %v", i, p.Calls[i].TimeoutMs, entryAt, e.at)), log
+			}
+			if woken == "" {
+				earlierTimeout = true
+			}
+			for qi, q := range queue {
+				if q.call == i {
+					queue = append(queue[:qi], queue[qi+1:]...)
+					break
+				}
+			}
+			cur = -1
+		}
+	}
+	return nil, log
 }
